@@ -755,17 +755,63 @@ def rand_case(rng, stream):
     return {"stream": stream, "ops": [fix_attr(o) for o in ops] + TAIL}
 
 
+def dict_paths(v, prefix=()):
+    """every path (sequence of ('k', name) / ('i', index) steps) from a dotdict literal to a mapping in it"""
+    out = []
+    if isinstance(v, dict) and "t" in v:
+        out.append(list(prefix))
+        for k, e in v["t"].items():
+            out += dict_paths(e, prefix + (("k", k),))
+    elif isinstance(v, dict) and "l" in v:
+        for i, e in enumerate(v["l"]):
+            out += dict_paths(e, prefix + (("i", i),))
+    return out
+
+
+def rand_heap_tree(rng, depth):
+    def val(d):
+        r = rng.random()
+        if d <= 0 or r < 0.35:
+            return rng.randint(0, 9)
+        if r < 0.6:
+            return {"t": {k: val(d - 1) for k in rng.sample(["x", "y", "z", "w", "a", "b"], rng.randint(0, 3))}}
+        return {"l": [val(d - 1) for _ in range(rng.randint(0, 3))]}
+    return {"t": {k: val(depth) for k in rng.sample(["a", "b", "c", "l", "m"], rng.randint(1, 4))}}
+
+
+def heap_case(rng):
+    tree = rand_heap_tree(rng, 3)
+    paths = dict_paths(tree)
+    listy = [p for p in paths if any(kind == "i" for kind, _ in p)]
+    steps = [list(st) for st in rng.choice(listy if listy and rng.random() < 0.7 else paths)]
+    return {"stream": "heap", "tree": tree, "steps": steps,
+            "k": rng.choice(["x", "y", "q", "a", "n"]), "v": rng.randint(10, 99)}
+
+
+def steps_key(steps, k):
+    """the dotted key that addresses `k` in the mapping at `steps`"""
+    text = ""
+    for kind, x in steps:
+        if kind == "k":
+            text += ("." if text else "") + x
+        else:
+            text += "[%d]" % x
+    return text + ("." if text else "") + k
+
+
 class C16(Suite):
     id = "C16"
     props_module = "Cpppo.Props.C16"
     rule = ("exhaustive: a fixed three-assignment tree (levels, a list holding an int, a mapping and a nested list) "
-            "followed by every operation kind x every key of a 70-key grid ('..' detours, leading/trailing dots, "
-            "indices in and out of range, negative, nested, reserved names, absent names), and every value of a 21-value "
+            "followed by every operation kind x every key of a %d-key grid ('..' detours, leading/trailing dots, "
+            "indices in and out of range, negative, nested, reserved names, absent names), and every value of a %d-value "
             "grid assigned at each of 16 keys then looked up; seeded random sequences of 2-12 operations over two slots "
             "(keys derived from earlier keys with '..' detours, plain-dict / list / dotdict values, copy and deepcopy), "
             "a copy-focused stream and a malformed-key stream (random strings over names, dots, brackets, digits); "
+            "a heap stream (random nested dotdict/list trees, copy.copy, one assignment through the copy at a random "
+            "mapping: how original and copy read afterwards, against the object-identity model); "
             "non-trivial = at least one assignment succeeded and a later operation on a multi-component, indexed or "
-            "'..' key returned without exception; distinct by operation sequence")
+            "'..' key returned without exception; distinct by operation sequence") % (len(KEYS1), len(VALUES))
     assumptions = [
         "index expressions are integer literals (name[i][j]); any other text reaching eval ends the case on both sides (oom)",
         "values stored are ints, lists and dotdicts (plain dicts inside lists are not converted by the code and are not generated)",
@@ -798,19 +844,47 @@ class C16(Suite):
                 for op in ("set", "del", "pop"):
                     for slot in (0, 1):
                         yield {"stream": "copygrid", "ops": PRELUDE + [[cp, 0, "", 0], [op, slot, key, 5]] + TAIL}
+        for _ in range(1500 if tier == "quick" else 20000):
+            yield heap_case(rng)
         nrand = 25000 if tier == "quick" else 400000
         for i in range(nrand):
             stream = ("rand", "rand", "rand", "copy", "malformed")[i % 5]
             yield rand_case(rng, stream)
 
     def model_line(self, c):
+        if c.get("stream") == "heap":
+            steps = ",".join(kind + str(x) for kind, x in c["steps"]) or "-"
+            return "ddh 1 %s %s %s %d" % (wire(c["tree"]), steps, c["k"], c["v"])
         toks = []
         for op, s, key, val in c["ops"]:
             v = wire(val) if op in ("set", "setattr", "setdefault", "update", "popd") else ""
             toks.append("%s/%d/%s/%s" % (op, s, key, v))
         return "dd 11 " + " ".join(toks)
 
+    def impl_heap(self, c):
+        """copy.copy( d ), then one assignment through the copy: how both read afterwards"""
+        m = mod()
+        d = build(c["tree"], m.dotdict)
+        before = show(d, m.dotdict_base)
+        cp = copy.copy(d)
+        try:
+            cp[steps_key(c["steps"], c["k"])] = c["v"]
+        except Exception as exc:
+            return ERRS.get(type(exc), "!other:" + type(exc).__name__)
+        out = show(d, m.dotdict_base) + "~" + show(cp, m.dotdict_base)
+        verdict = None
+        if show(d, m.dotdict_base) != before:
+            verdict = "an assignment through the copy changed the original: %s -> %s" % (before, show(d, m.dotdict_base))
+        elif mutable_ids(d, m.dotdict_base, set()) & mutable_ids(cp, m.dotdict_base, set()):
+            verdict = "the copy shares a mapping or list with the original"
+        elif plain(cp[steps_key(c["steps"], c["k"])], m.dotdict_base) != c["v"]:
+            verdict = "the assigned value is not found in the copy"
+        self._verdicts[json.dumps(c, sort_keys=True)] = verdict
+        return out
+
     def impl(self, c):
+        if c.get("stream") == "heap":
+            return self.impl_heap(c)
         r = Runner()
         out = r.run(c)
         self._verdicts[json.dumps(c, sort_keys=True)] = r.verdict
@@ -825,6 +899,8 @@ class C16(Suite):
         return self._verdicts.get(k)
 
     def nontrivial(self, c, out):
+        if c.get("stream") == "heap":
+            return json.dumps(c, sort_keys=True) if any(kind == "i" for kind, _ in c["steps"]) and "~" in out else None
         parts = out.split("|")
         setok = False
         for (op, s, key, val), p in zip(c["ops"], parts):
@@ -837,6 +913,8 @@ class C16(Suite):
         return None
 
     def classify(self, c, out):
+        if c.get("stream") == "heap":
+            return "heap:" + ("list" if any(kind == "i" for kind, _ in c["steps"]) else "levels")
         flags = ""
         res = [p.split("~", 1)[0] for p in out.split("|")]
         if any(r.startswith("!") for r in res):
@@ -853,6 +931,8 @@ class C16(Suite):
         return c.get("stream", "?") + ":" + (flags or "-")
 
     def shrink(self, c):
+        if c.get("stream") == "heap":
+            return
         ops = c["ops"]
         body = [o for o in ops if o not in TAIL]
         for i in range(len(body)):
